@@ -260,6 +260,13 @@ func delegate(stmts []ast.Stmt, recv string, c *tctx) *ast.FuncDecl {
 		return nil
 	}
 	for _, a := range call.Args {
+		// an argument may also be a plain field  recv.f  of any type that no method ever assigns: evaluating it
+		// reads a fixed reference, the helper uses what it refers to under the lock
+		if as, ok := a.(*ast.SelectorExpr); ok {
+			if id, isID := as.X.(*ast.Ident); isID && id.Name == recv && !c.assigned[as.Sel.Name] {
+				continue
+			}
+		}
 		if !harmless(a, recv, c) {
 			return nil
 		}
